@@ -181,3 +181,74 @@ pub fn obl_crc_native(s: &mut Src, ctx: &mut Ctx) {
         vcheck!(ctx, matches!(r, Ok(v) if v == sp), "[C03] modes_checksum == remainder modulo 0x1FFF409 xor last 24 bits");
     }
 }
+
+/// C08, slice 1 (mechanically extracted character loop of aircraft_identification_read): the
+/// collected codes are exactly the non-space 6-bit characters of the 48 bits, in order
+#[cfg(kani)]
+pub fn obl_ident_loop(s: &mut Src, ctx: &mut Ctx) {
+    let mut buf = [0u8; 6];
+    s.fill(&mut buf);
+    let mut c = Cursor::new(&buf[..]);
+    let mut r = Reader::new(&mut c);
+    let got = verif_ident_loop(&mut r);
+    let mut exp = [0u8; 8];
+    let mut n = 0;
+    let mut k = 0;
+    while k < 8 {
+        let code = bits(&buf, 1 + 6 * k, 6) as u8;
+        if code != 32 {
+            exp[n] = code;
+            n += 1;
+        }
+        k += 1;
+    }
+    match got {
+        Ok(v) => {
+            vcheck!(ctx, v.len() == n, "[C08] identification loop: one code per non-space character of the eight 6-bit characters");
+            let mut same = true;
+            let mut k = 0;
+            while k < 8 {
+                if k < n && k < v.len() && v[k] != exp[k] {
+                    same = false;
+                }
+                k += 1;
+            }
+            vcheck!(ctx, same, "[C08] identification loop: the codes are the message's characters, in order");
+        }
+        Err(_) => {
+            vcheck!(ctx, false, "[C08] identification loop never fails on 48 available bits");
+        }
+    }
+    vcheck!(ctx, r.bits_read == 48, "[C08] identification loop consumes exactly 48 bits");
+}
+#[cfg(not(kani))]
+pub fn obl_ident_loop(s: &mut Src, ctx: &mut Ctx) {}
+
+/// C08, slice 2 (mechanically extracted String statement): for `len` codes (concrete length,
+/// symbolic 6-bit values) the String is the Annex 10 character of each code, in order
+#[cfg(kani)]
+pub fn obl_ident_tail(s: &mut Src, ctx: &mut Ctx, len: usize) {
+    let mut v: Vec<u8> = Vec::new();
+    let mut exp = [0u8; 8];
+    let mut k = 0;
+    while k < len {
+        let c = s.u8() & 0x3f;
+        v.push(c);
+        exp[k] = charset(c);
+        k += 1;
+    }
+    let st = verif_ident_tail(v);
+    let by = st.as_bytes();
+    vcheck!(ctx, by.len() == len, "[C08] identification: one output character per code");
+    let mut same = by.len() == len;
+    let mut k = 0;
+    while k < len {
+        if same && by[k] != exp[k] {
+            same = false;
+        }
+        k += 1;
+    }
+    vcheck!(ctx, same, "[C08] identification: every character equals the Annex 10 character set, in order");
+}
+#[cfg(not(kani))]
+pub fn obl_ident_tail(s: &mut Src, ctx: &mut Ctx, len: usize) {}
